@@ -258,7 +258,8 @@ TEmit ==
               ELSE IF e.indep[dec].docs # want.v THEN "the independent " \o dec \o " parser reads something else than what was written"
               ELSE IF dec = "json" /\ e.multiline /\ (cls = "json") THEN "compact JSON was requested, indented JSON was written"
               ELSE IF cls = "json-pretty" /\ ~e.multiline /\ e.hascontainer THEN "indented JSON was requested, compact JSON was written"
-              ELSE IF dec \in {"yaml", "toml"} /\ e.indep["json"].ok /\ e.hascontainer THEN "JSON was written where " \o dec \o " was selected"
+              ELSE IF dec \in {"yaml", "toml"} /\ e.indep["json"].ok /\ e.indep["json"].docs = want.v /\ e.hascontainer
+                   THEN "JSON was written where " \o dec \o " was selected"
               ELSE ""
      IN Verdict(j)
 
